@@ -911,9 +911,9 @@ macro "root_chain" hfin:ident : tactic => `(tactic| repeat (first
   | (apply RootFrom.bind_last; intro _) | apply RootFrom.ite | split))
 
 /-- A storage expression (`XExpr.isStorage`: variable, element, item, chained type method) that evaluates to a cell
-of (or inside) a variable slot is rooted at exactly that variable (`rootVar`); anything else it returns is a temporary. -/
+of (or inside) a variable slot is rooted at exactly that variable (`rootVarX`); anything else it returns is a temporary. -/
 theorem storage_root (F : List XFun) : ∀ fuel e (i : Nat), e.isStorage = true →
-    RootFrom (fun ρ => ρ = .var i → rootVar e = some i) (evalX F fuel e)
+    RootFrom (fun ρ => ρ = .var i → rootVarX e = some i) (evalX F fuel e)
   | 0, e, i, _ => by simp only [evalX]; exact RootFrom.fail _
   | fuel + 1, e, i, hst => by
     cases e with
@@ -921,22 +921,22 @@ theorem storage_root (F : List XFun) : ∀ fuel e (i : Nat), e.isStorage = true 
       intro s x s' h
       simp only [evalX] at h
       split at h <;> cases h
-      intro e; simp only [rootVar]; injection e with e; rw [e]
+      intro e; simp only [rootVarX]; injection e with e; rw [e]
     | item r idx =>
       simp only [XExpr.isStorage] at hst
       simp only [evalX]
       refine RootFrom.bind_with (fun s a s1 hm => ?_)
       refine RootFrom.bind_last (fun c => RootFrom.bind_last (fun _ => RootFrom.pure _ ?_))
-      intro e; simp only [rootVar]; exact storage_root F fuel r i hst s a s1 hm e
+      intro e; simp only [rootVarX]; exact storage_root F fuel r i hst s a s1 hm e
     | setItem r idx a =>
       simp only [XExpr.isStorage] at hst
       simp only [evalX]
       refine RootFrom.bind_with (fun s xr s1 hm => ?_)
       refine RootFrom.bind_with (fun s2 x s3 hr => ?_)
       have hx := rootFrom_recvCell r xr s2 x s3 hr
-      have hfin : ∀ ρ, (ρ = x.root ∨ IsTmp ρ) → (ρ = .var i → rootVar (.setItem r idx a) = some i) := by
+      have hfin : ∀ ρ, (ρ = x.root ∨ IsTmp ρ) → (ρ = .var i → rootVarX (.setItem r idx a) = some i) := by
         intro ρ h1 h2
-        simp only [rootVar]
+        simp only [rootVarX]
         rcases h1 with h1 | h1
         · rcases hx with hx | hx
           · exact storage_root F fuel r i hst s xr s1 hm (by rw [← hx, ← h1, h2])
@@ -950,9 +950,9 @@ theorem storage_root (F : List XFun) : ∀ fuel e (i : Nat), e.isStorage = true 
       refine RootFrom.bind_with (fun s2 x s3 hr => ?_)
       have hx : x.root = xr.root ∨ IsTmp x.root :=
         (RootFrom.ite (RootFrom.pure xr (Or.inl rfl)) (rootFrom_recvCell r xr)) s2 x s3 hr
-      have hfin : ∀ ρ, (ρ = x.root ∨ IsTmp ρ) → (ρ = .var i → rootVar (.mem m r args) = some i) := by
+      have hfin : ∀ ρ, (ρ = x.root ∨ IsTmp ρ) → (ρ = .var i → rootVarX (.mem m r args) = some i) := by
         intro ρ h1 h2
-        simp only [rootVar]
+        simp only [rootVarX]
         rcases h1 with h1 | h1
         · rcases hx with hx | hx
           · exact storage_root F fuel r i hst.2 s xr s1 hm (by rw [← hx, ← h1, h2])
@@ -971,13 +971,13 @@ theorem storage_root (F : List XFun) : ∀ fuel e (i : Nat), e.isStorage = true 
 `xr` is the cell the receiver expression `r` evaluates to, `x` the cell `MemberExpression::receiver()` hands to
 put / insert / delete / concat / set@ (`recvCell`), i.e. the ONLY cell those members write (`wrRecv x …`). If `x` is a
 variable slot or lies inside one (`x.root = .var i`), then `r` is a storage expression (`isStorage`: a variable, or an
-element / item / chained type method of one), it is rooted at that very variable (`rootVar r = some i`), and no copy
+element / item / chained type method of one), it is rooted at that very variable (`rootVarX r = some i`), and no copy
 was made (`x = xr`). Contrapositive: a receiver that merely hands an operand through (`(s + null)`, `substr("", 0)`,
 `idf(s)` …) is cloned or is a temporary — the member cannot reach a variable. For ALL function tables, fuels,
 expressions and states satisfying the flag invariant. -/
 theorem inplace_only_through_storage (F : List XFun) (fuel : Nat) (r : XExpr) (s s1 s2 : XS) (xr x : XLoc) (i : Nat)
     (hinv : FlagInvX s) (hev : evalX F fuel r s = .ok (xr, s1)) (hrc : recvCell r xr s1 = .ok (x, s2))
-    (hroot : x.root = .var i) : r.isStorage = true ∧ rootVar r = some i ∧ x = xr := by
+    (hroot : x.root = .var i) : r.isStorage = true ∧ rootVarX r = some i ∧ x = xr := by
   have hinv1 : FlagInv s1.st := (evalX_pres F fuel r s xr s1 hinv hev).flagInv hinv
   -- the receiver cell is the evaluated one, not a clone
   have hrc' := hrc
@@ -1029,7 +1029,7 @@ example :
     let s : XS := { st := { vars := [⟨.tab { major := .int, level := 2 } [] [t, t], true⟩], csts := [⟨.int 0, true⟩], pool := [], wm := 0 } }
     let r : XExpr := .mem .at (.var 0) [.cst 0]
     FlagInvX s ∧ ∃ s1, evalX [] 3 r s = .ok (⟨.var 0, [0]⟩, s1) ∧ recvCell r ⟨.var 0, [0]⟩ s1 = .ok (⟨.var 0, [0]⟩, s1) ∧
-      r.isStorage = true ∧ rootVar r = some 0 := by
+      r.isStorage = true ∧ rootVarX r = some 0 := by
   refine ⟨⟨by simp, by simp⟩, _, rfl, rfl, rfl, rfl⟩
 
 end Extended
